@@ -95,6 +95,25 @@ class C09(scen.WorldProp):
                     events.append(call(t0 + d + 3 + rng.uniform(0.5, 3) * I * N, GO))
                 end += d
                 events.sort(key=lambda e: e[0])
+            if lead is None and rng.random() < 0.2:
+                # under Ringing Room's control: the band moves the sliders (peal speed, inertia) while Wheatley is
+                # waiting for somebody - a setting is no reason to stop waiting
+                from harness.props.c19 import method_msg
+                wb = [b for b in range(1, 17) if b not in humans]
+                ev2 = [[t0 - 0.3, "msg", method_msg(stage)]] + [e for e in events if e[2].get("call") != GO]
+                for _ in range(rng.randint(2, 6)):
+                    kv = rng.choice([["peal_speed", ps], ["peal_speed", ps + rng.choice([-10, 10, 20])], ["inertia", 1],
+                                     ["inertia", 0], ["sensitivity", 0.5]])
+                    ev2.append([rng.uniform(t0 + 3, end - 2), "msg", {"m": "setting", "kvs": [kv]}])
+                ev2.sort(key=lambda e: e[0])
+                sc = {"start": 1000.0, "end": end + 4, "tower_size": N, "events": ev2,
+                      "on_join": scen.humans_on_join(humans, "Wheatley", wb),
+                      "bot": scen.bot_cfg({"type": "placeholder"}, up_down_in=True, stop_at_rounds=False,
+                                          user_name="Wheatley", server_id=5),
+                      "rhythm": scen.rhythm_cfg("wait", inertia=1.0, peal_speed=ps)}
+                yield {"k": "world", "scenario": sc, "humans": humans, "style": rng.choice(["late", "late", "mixed"]),
+                       "seed": rng.getrandbits(32), "lead": None, "server": True}
+                continue
             sc = {"start": 1000.0, "end": end, "tower_size": N, "events": events,
                   "on_join": scen.humans_on_join(humans),
                   "bot": scen.bot_cfg(spec, up_down_in=udi),
